@@ -1,6 +1,6 @@
 SPECIFICATION MCSpec
-CONSTANTS Proc = {0, 1}  Anchor = {0, 1}  Slice = {0, 1}  Key = {1}
+CONSTANTS Proc = {0, 1}  Anchor = {0, 1}  Slice = {0}  Key = {1}
           AllowUpdRace = FALSE  AllowStaleSuffixLoss = FALSE
-          MCOps = {"ow", "ws", "sa", "cw", "aw", "or", "rs", "cr", "cf", "fe", "fk", "p", "ou", "us", "cu", "au"}
+          MCOps = {"ow", "ws", "sa", "cw", "aw", "or", "rs", "cr", "cf", "fk"}
 INVARIANTS TypeOK OneWriter WriterOwns WriterExcludesReaders ReaderHoldsEntry SlicesStable NoChainRepeats
 CHECK_DEADLOCK FALSE
